@@ -160,12 +160,12 @@ Definition plan_class (c : cfg) (dms : list meta) : res (list meta) :=
   | _ =>
       let s := sort_min dms in
       match select_overlapping c s with
-      | _ :: _ as r => Ok r
+      | (_ :: _) as r => Ok r
       | [] =>
           let s' := removelast s in
           match select_dirs c s' with
           | Panic => Panic
-          | Ok (_ :: _ as r) => Ok r
+          | Ok ((_ :: _) as r) => Ok r
           | Ok [] =>
               match s' with
               | [] => Ok []
@@ -196,11 +196,11 @@ Definition plan_metas (c : cfg) (dms : list meta) : res (list meta) :=
       if 1 <? classes then
         match plan_class c nonhint with
         | Panic => Panic
-        | Ok (_ :: _ as r) => Ok r
+        | Ok ((_ :: _) as r) => Ok r
         | Ok [] =>
             match plan_class c stale with
             | Panic => Panic
-            | Ok (_ :: _ as r) => Ok r
+            | Ok ((_ :: _) as r) => Ok r
             | Ok [] => plan_class c selected
             end
         end
@@ -325,7 +325,7 @@ Fixpoint chained (gmax : Z) (l : list meta) : bool :=
   end.
 Definition overlap_group (ps : list meta) : bool :=
   match ps with
-  | d0 :: (_ :: _) as tl => sorted_min ps && chained (m_max d0) tl
+  | d0 :: ((_ :: _) as tl) => sorted_min ps && chained (m_max d0) tl
   | _ => false
   end.
 
